@@ -53,6 +53,11 @@ func (ds *Storage) readBlobs(ctx context.Context, opts readBlobRequest) error {
 	dirFullPath := filepath.Join(opts.dirRoot, opts.pathInto)
 	names, err := ds.fs.ReadDirNames(dirFullPath)
 	if err != nil {
+		if os.IsNotExist(err) && opts.pathInto != "" {
+			// An empty shard directory of a queue, removed (see
+			// tryRemoveDir) since its parent was listed.
+			return nil
+		}
 		return &enumerateError{"readdirnames of " + dirFullPath, err}
 	}
 	if len(names) == 0 {
